@@ -414,7 +414,7 @@ where
                 &mut self.data.clone(),
             )?;
             x[ind] += self.dt;
-            col.set_column(0, &((above + below) * denom));
+            col.set_column(0, &((above - below) * denom));
         }
 
         Ok(mat)
